@@ -140,7 +140,7 @@ static void flavour(const char* name, vh::Rng& rng, bool thorough) {
     int hist = (thorough ? 3000 : 500) / (g_loopPolicy ? 4 : 1);
     for (int h = 0; h < hist; ++h) {
       // every third history: six nodes and a longer run (removed nodes leave dead entries behind in the sorted flavours)
-      const int NN = (h % 3 == 2) ? 6 : 4;
+      const int NN = (h % 3 == 2 || (Sorted && h % 3 == 1)) ? 6 : 4;
       Driver<G, HasIn, Undirected> d(NN);
       g_selfloops = g_loopPolicy == 1;
       L->ev(64, ks("ev", "reset") + "," + ks("flavour", name) + "," + ks("mode", "seq") + "," + kv("threads", 1) + "," + kv("hasin", HasIn ? 1 : 0) +
@@ -151,6 +151,15 @@ static void flavour(const char* name, vh::Rng& rng, bool thorough) {
       for (int i = 0; i < (NN == 6 ? 5 : 2) + (int)rng.below(2); ++i) { MOp o{0, i, 0, 0}; VL r = d.apply(o); d.track(o); L->ev(0, opJson(0, o, r)); L->ev(0, d.dump()); }
       for (int i = 0; i < len; ++i) {
         MOp o = randomOp(rng, NN, ++step);
+        if (NN == 6) {
+          // removal-heavy shape: build a dense neighbourhood first, then remove two or three nodes, then look up /
+          // insert / remove around the dead entries they leave behind
+          int phase = i < 12 ? 0 : i < 15 ? 1 : 2;
+          bool mp = ((o.a + 2 * o.b) % 3 == 0);
+          if (phase == 0 && o.op != 0 && o.a != o.b) { o.op = mp ? 3 : 2; if (mp) o.d = 7; }
+          if (phase == 1) { o.op = 1; o.a = 1 + (int)rng.below(NN - 1); }
+          if (phase == 2 && o.op <= 1) { o.op = mp ? 5 : (rng.coin() ? 2 : 5); }
+        }
         if (!d.applicable(o)) continue;
         VL r = d.apply(o);
         d.track(o);
